@@ -339,9 +339,11 @@ def gen_ops(rng, tier):
     ops = []
 
     def mk(kind, ofm, ifm_depth=None, kernel=(1, 1, 1, 1, 1, 1), bits=8, lut=False, upscale="NONE", quant="scale",
-           ifm2=None, partkernel=False, relu=False, unsigned=False):
+           ifm2=None, partkernel=False, relu=False, unsigned=False, ifm_hw=None):
         d = dict(kind=kind, ofm=tuple(ofm), kernel=tuple(kernel), bits=bits, lut=lut, upscale=upscale, quant=quant,
                  partkernel=partkernel, relu=relu, unsigned=unsigned)
+        if ifm_hw is not None:
+            d["ifm_hw"] = tuple(ifm_hw)
         d["ifm_depth"] = ofm[2] if (kind in EQUAL_DEPTH or ifm_depth is None) else ifm_depth
         if kind.startswith("ew_") and kind not in ("ew_abs", "ew_lrelu"):
             d["ifm2"] = ifm2 if ifm2 is not None else tuple(ofm)
@@ -373,7 +375,17 @@ def gen_ops(rng, tier):
         # one OFM row but a kernel taller than one row: the Conv1D accumulator saving must not apply
         mk("conv", (1, 64, 128), 32, (3, 3, 1, 1, 1, 1)), mk("depthwise", (1, 40, 16), None, (2, 2, 1, 1, 1, 1)),
         mk("maxpool", (1, 50, 24), None, (2, 2, 1, 1, 1, 1)), mk("conv", (1, 64, 64), 16, (1, 1, 1, 1, 1, 1), bits=16),
+        # kernel one row high with IFM and OFM heights on opposite sides of 1: the Conv1D accumulator saving is a
+        # property of the OFM (one IFM row upscaled 2x2 to two OFM rows: no saving; two IFM rows strided to one OFM row: saving)
+        mk("conv", (2, 32, 128), 16, upscale="NEAREST"), mk("conv", (2, 32, 128), 16, upscale="TRANSPOSE"),
+        mk("conv", (1, 64, 128), 16, (1, 1, 2, 2, 1, 1), ifm_hw=(2, 128)),
+        mk("depthwise", (2, 32, 64), None, (3, 1, 1, 1, 1, 1), upscale="NEAREST"),
+        mk("maxpool", (1, 20, 32), None, (2, 1, 2, 2, 1, 1), ifm_hw=(2, 40)),
+        mk("avgpool", (2, 40, 48), None, (1, 1, 1, 1, 1, 1), upscale="NEAREST", bits=16),
+        mk("conv", (1, 33, 40), 24, (3, 1, 1, 3, 1, 1), bits=16, ifm_hw=(3, 35), lut=True),
+        mk("reduce_sum", (2, 24, 1), 40, upscale="TRANSPOSE"),
     ]
+    n_corpus = len(ops)
     n_small = 170 if tier == "quick" else 1500
     n_big = 50 if tier == "quick" else 400
     for i in range(n_small + n_big):
@@ -413,9 +425,25 @@ def gen_ops(rng, tier):
             r = rng.random()
             ifm2 = "scalar" if r < 0.25 else (rng.choice([(1, ow, 1), (oh, 1, oc), (1, 1, oc), (1, 1, 1), (oh, ow, 1)])
                                               if r < 0.6 else (oh, ow, oc))
+        ifm_hw = None
+        if not kind.startswith("ew_"):
+            r = rng.random()
+            if r < 0.12:
+                # stratum: kernel height 1, IFM / OFM heights on opposite sides of 1
+                kh, dy = 1, 1
+                if rng.random() < 0.5:
+                    oh, sy, upscale = 2, 1, rng.choice(["NEAREST", "TRANSPOSE"])       # one IFM row, two OFM rows
+                else:
+                    oh, sy, upscale = 1, rng.choice([2, 3]), "NONE"                      # several IFM rows, one OFM row
+                    ifm_hw = (rng.randint(2, sy), (ow - 1) * sx + (kw - 1) * dx + 1)
+                if not small:
+                    ow, oc = rng.choice([32, 64, 40]), rng.choice([64, 128, 96])         # blocks where the saving decides
+            elif r < 0.2 and upscale == "NONE":
+                # IFM rows / columns left over below the last kernel position (legal: they are simply not read)
+                ifm_hw = ((oh - 1) * sy + (kh - 1) * dy + 1 + rng.randint(0, sy - 1), (ow - 1) * sx + (kw - 1) * dx + 1 + rng.randint(0, sx - 1))
         ops.append(mk(kind, (oh, ow, oc), idepth, (kw, kh, sx, sy, dx, dy), bits, lut, upscale, quant, ifm2,
-                      partkernel=rng.random() < 0.5, relu=rng.random() < 0.2))
-    return ops
+                      partkernel=rng.random() < 0.5, relu=rng.random() < 0.2, ifm_hw=ifm_hw))
+    return ops, n_corpus
 
 
 def prun(name, cases, n=14):
@@ -573,6 +601,16 @@ def correspondence(rng, tier, stats):
         if bt == NpuBlockType.ElementWise:
             kw = kh = sx = sy = dx = dy = 1
         ih, iw = (oh - 1) * sy + (kh - 1) * dy + 1, (ow - 1) * sx + (kw - 1) * dx + 1
+        r = rng.random()
+        if bt != NpuBlockType.ElementWise and r < 0.2:
+            # kernel one row high, IFM / OFM heights on opposite sides of 1 (2x2 upscaling; stride_y >= 2)
+            kh = 1
+            if rng.random() < 0.5:
+                ih, oh = 1, rng.choice([2, 2, 3, 4])
+            else:
+                oh, ih = 1, rng.choice([2, 2, 3, 5])
+        elif r < 0.3:
+            ih = rng.choice([1, 2, ih + 1, max(1, (ih + 1) // 2)])   # upscaled / left-over rows: heights not tied to the kernel
         idp = od if bt in eqd else dim(300)
         has2 = int(bt == NpuBlockType.ElementWise and rng.random() < 0.7)
         i2 = [rng.choice([1, ih]), rng.choice([1, iw]), rng.choice([1, idp])]
@@ -674,7 +712,8 @@ def api_oracle(rng, tier, stats):
     from ethosu.vela import api
     from ethosu.vela.architecture_features import Accelerator
     fails = []
-    ops = gen_ops(rng, tier)
+    ops, n_corpus = gen_ops(rng, tier)
+    stats["n_corpus"] = n_corpus
     accs = list(api.NpuAccelerator)
     acc_name = {a: Accelerator.from_npu_accelerator(a).value for a in accs}
     acc_index = {a: list(Accelerator).index(Accelerator.from_npu_accelerator(a)) for a in accs}
@@ -687,9 +726,10 @@ def api_oracle(rng, tier, stats):
         if time.time() - t0 > budget:
             stats["ops_skipped_time"] = len(ops) - oi
             break
-        for a in (accs if (oi < 28 or tier == "thorough") else rng.sample(accs, 3)):
+        for a in (accs if (oi < n_corpus or tier == "thorough") else rng.sample(accs, 3)):
             name = acc_name[a]
             op = build_op(d)
+            selected_oracle(d, a, name, acc_index[a], stats, fails, vcases, vmeta)
             try:
                 offered = api.npu_find_block_configs(op, a)
             except AssertionError as ex:
@@ -752,6 +792,60 @@ def api_oracle(rng, tier, stats):
     return fails, (mcases, mmeta), (vcases, vmeta)
 
 
+def selected_oracle(d, a, name, ai, stats, fails, vcases, vmeta):
+    """the block the scheduler's search selects for operation d (find_block_config called as scheduler._get_block_config
+    calls it) is valid and is accepted by the command stream generator, with valid registers"""
+    from ethosu.vela import api
+    from ethosu.vela import architecture_allocator as aa
+    from ethosu.vela.architecture_features import Accelerator, create_default_arch
+    from ethosu.vela.operation import Kernel, NpuBlockType
+    from ethosu.vela.shape4d import Shape4D
+    from ethosu.vela.ethos_u55_regs.ethos_u55_regs import resampling_mode
+    c = op_model_args(d, ai, (1, 1, 1), d["quant"] == "scale")
+    arch = create_default_arch(list(Accelerator)[ai])
+    try:
+        cfg = aa.find_block_config(arch, NpuBlockType(c[4]), Shape4D(1, c[6], c[5], c[7]), Shape4D(1, c[9], c[8], c[10]),
+                                   Shape4D(1, c[13], c[12], c[14]) if c[11] else None, bool(c[15]), c[16], Kernel(*c[18:24]),
+                                   c[24], bool(c[25]), resampling_mode(c[26]))
+    except Exception as ex:  # noqa: not a statement about a selected block
+        stats["select_raised"] = stats.get("select_raised", 0) + 1
+        return
+    if cfg is None:
+        stats["select_none"] = stats.get("select_none", 0) + 1
+        return
+    stats["selected"] = stats.get("selected", 0) + 1
+    stats["evals"] += 1
+    blk = (cfg.ofm_block.height, cfg.ofm_block.width, cfg.ofm_block.depth)
+    why = block_shape_ok(name, blk)
+    if why:
+        fails.append(dict(kind="selected_invalid", accelerator=name, op=d, block=blk, why="find_block_config selects: " + why))
+        return
+    d2 = dict(d, partkernel=bool(cfg.is_partkernel))   # the traversal travels with the selected configuration
+    op = build_op(d2)
+    op.block_config = api.NpuShape3D(height=blk[0], width=blk[1], depth=blk[2])
+    try:
+        words = api.npu_generate_register_command_stream([op], a)
+    except Exception as ex:  # noqa
+        msg = "%s: %s" % (type(ex).__name__, str(ex)[:160])
+        if "does not fit" in str(ex):
+            fails.append(dict(kind="selected_not_accepted", accelerator=name, op=d2, block=blk,
+                              why="the block find_block_config selects is rejected by the generator: " + msg))
+        else:
+            k = d["kind"] + ":" + msg[:60]
+            stats["op_not_generatable"][k] = stats["op_not_generatable"].get(k, 0) + 1
+        return
+    regs, nops = decode(words)
+    why = "expected one NPU operation, decoded %d" % nops if nops != 1 else registers_ok(d2, name, blk, regs)
+    if why:
+        fails.append(dict(kind="selected_invalid", accelerator=name, op=d2, block=blk, why="selected block: " + why,
+                          regs={k: v for k, v in regs.items() if "BLK" in k or "IB_" in k or "AB_" in k or "ACC" in k}))
+        return
+    ma = op_model_args(d2, ai, blk, False)
+    vcases.append(ma[:-2] + [ma[-1], regs["NPU_SET_IFM_IB_END"], regs.get("NPU_SET_IFM2_IB_START", 0),
+                             regs["NPU_SET_AB_START"], regs["NPU_SET_ACC_FORMAT"], int("NPU_SET_IFM2_IB_START" in regs)])
+    vmeta.append((d2, name, blk, regs))
+
+
 D2_FAMS = ["conv_chain", "conv_chain_big", "single", "diamond", "mixed_cpu", "lut_heavy", "conv_chain_big", "single"]
 
 
@@ -769,6 +863,11 @@ def compiled_oracle(tier, stats):
     comp = {"compilations": len(results), "compiled_ok": 0, "streams": 0, "ops": 0, "kinds": {}}
     for r in results:
         if r.get("status") != "ok":
+            if "does not fit" in str(r.get("exception", "")) and "block_config" in str(r.get("exception", "")):
+                fails.append(dict(kind="selected_not_accepted", accelerator=artefacts.job_accel(r["job"]),
+                                  op={"kind": "compilation", "net": r.get("net_desc")}, block=None,
+                                  why="compilation aborted: the generator rejects the scheduler's block: " + str(r.get("exception"))[:200],
+                                  compilation=r["job"]))
             continue
         comp["compiled_ok"] += 1
         art = artefacts.load(r)
@@ -888,10 +987,13 @@ def run(tier):
                                    "try_block_config_outcomes(0 none,1 config,2 exception)": stats["try_outcomes"]},
         "model_vs_impl_differences": stats["diffs"],
         "api": {"operations_x_accelerators": stats["ops"], "offered_blocks": stats["offered"],
+                "scheduler_selection(find_block_config) fed through the generator": stats.get("selected", 0),
+                "scheduler_selection_none": stats.get("select_none", 0), "scheduler_selection_raised": stats.get("select_raised", 0),
                 "fed_back_through_generator": stats["generated"], "no_config_offered": stats["no_config"],
                 "op_not_generatable(for reasons other than the block)": stats["op_not_generatable"],
                 "ops_skipped_for_time": stats.get("ops_skipped_time", 0)},
-        "input_distribution": "corpus of 28 operations (existing tests, boundary shapes, Conv1D, LUT, 16/32 bit, scale_f32=None) x 6 "
+        "input_distribution": "corpus of %d operations (existing tests, boundary shapes, Conv1D, kernel height 1 with IFM/OFM heights on opposite "
+                              "sides of 1 by upscaling / stride, LUT, 16/32 bit, scale_f32=None) x 6 " % stats.get("n_corpus", 0) +
                               "accelerators; then operations from the small grid h,w<=12 c<=40 kernel<=4 stride<=3 dilation<=2 "
                               "and larger random shapes x 3 random accelerators (all 6 in thorough); every offered block judged, "
                               "up to %d per operation fed back through the generator" % (10 if tier == "quick" else 60),
